@@ -77,8 +77,9 @@ by a container), rendered under options `o` with `w` cells available.  Container
 * `Constrain` / `Align` hand their child a narrower width: that width must still be at or above the child's
   structural minimum (this is the statement's "W at or above the structural minimum", at the inner width);
 * group: every member in the domain, and every member but the last ends its line (a `ProgressBar` does not: F23);
-* table (any number of columns, also none): columns free to wrap (no `width`, `min_width`, `no_wrap`; ratios are fine, except a
-  `ratio=0` column in an expanding table: finding `table-ratio-zero-column`), title / caption in the text domain and ending
+* table (any number of columns, also none): columns free to wrap (no `width`, `min_width`, `no_wrap`; every ratio is fine on the
+  code with the repaired flexible-width clamp; on the code before fix 75c2776 a `ratio=0` column in an expanding table is excluded:
+  finding `table-ratio-zero-column`), title / caption in the text domain and ending
   their line, an explicit `Table(width=…)` leaves room for the borders and one cell per column;
 * bar / progress bar: proper fractions (`den > 0`), no negative `width`. -/
 def Dom (cfg : Cfg) : R → Opts → Nat → Prop
@@ -101,7 +102,8 @@ def Dom (cfg : Cfg) : R → Opts → Nat → Prop
   | .progressBar po, _, _ => 0 < po.total.den ∧ 0 < po.completed.den ∧ 0 ≤ po.width.getD 0
   | .table to cols, o, _ =>
     annDom to.title o ∧ annDom to.caption o ∧
-      (∀ c ∈ cols, (colOptsOf c).wrappable ∧ ((to.expand || to.width.isSome) = false ∨ (colOptsOf c).ratio ≠ some 0)) ∧
+      (∀ c ∈ cols, (colOptsOf c).wrappable ∧ ((cfg.fl.flexNegative = false ∧ cfg.fl.flexClampZero = false) ∨
+        (to.expand || to.width.isSome) = false ∨ (colOptsOf c).ratio ≠ some 0)) ∧
       (∀ tw, to.width = some tw → tableExtra to cols.length + cols.length ≤ tw)
   | .columns co _, o, _ => annDom co.title o ∧ co.lay.width = none
   | .tree _, _, _ => True
